@@ -838,7 +838,7 @@ def child_handle(case: Any) -> Any:
         return modelops.op_inputmut(case)
     if op == "libedit":
         return modelops.op_libedit(case)
-    if op in ("dumporder", "methods", "eqprobe", "helper", "helpers"):
+    if op in ("dumporder", "methods", "eqprobe", "helper", "helpers", "shared", "unionseq"):
         return modelops.child_handle(case)
     if op == "drive":
         d = DRIVERS.get(case["site"])
